@@ -24,16 +24,16 @@ type Mismatch struct {
 
 // Report is what every harness command prints (one JSON object) on stdout.
 type Report struct {
-	Family      string            `json:"family"`
-	Mode        string            `json:"mode"`
-	Evaluations int               `json:"evaluations"`
-	Nontrivial  []string          `json:"nontrivial_hashes,omitempty"`
-	NontrivialN int               `json:"nontrivial"`
-	Samples     []interface{}     `json:"samples,omitempty"`
-	Mismatches  []Mismatch        `json:"mismatches"`
-	KnownHits   map[string]int    `json:"known_hits,omitempty"`
-	Classes     map[string]int    `json:"classes,omitempty"`
-	Notes       []string          `json:"notes,omitempty"`
+	Family      string                 `json:"family"`
+	Mode        string                 `json:"mode"`
+	Evaluations int                    `json:"evaluations"`
+	Nontrivial  []string               `json:"nontrivial_hashes,omitempty"`
+	NontrivialN int                    `json:"nontrivial"`
+	Samples     []interface{}          `json:"samples,omitempty"`
+	Mismatches  []Mismatch             `json:"mismatches"`
+	KnownHits   map[string]int         `json:"known_hits,omitempty"`
+	Classes     map[string]int         `json:"classes,omitempty"`
+	Notes       []string               `json:"notes,omitempty"`
 	Extra       map[string]interface{} `json:"extra,omitempty"`
 	seen        map[string]bool
 }
